@@ -88,7 +88,15 @@ def gen_run(exe, rng, tier):
 
 
 def gen(rng, tier):
-    return []
+    """a realm whose authentication server and accounting server are both DISCOVERED (external lookup command): the real findserver()
+    asked for an Access-Request / an Accounting-Request, for the request that starts the discovery and for the next one"""
+    from rspcheck import Case
+    cs = []
+    block = b"server dynamic {\n  host 127.0.0.1:1\n  type tcp\n}\n"
+    for _ in range(40 if tier == "quick" else 600):
+        ident = rng.choice([b"bob@example.org", b"a@b.c", b"x@y", b"u@Example.ORG", b"nobody", b"u@bad realm", b"a@b@c.d"])
+        cs.append(Case("dynroute %s %d %d %s" % (ident.hex(), rng.randrange(2), rng.randrange(2), block.hex()), kind="dynroute", forwarded=1))
+    return cs
 
 
 def nontrivial(c):
